@@ -755,6 +755,38 @@ def _composite_rules(col, cx, crate, r, sfx):
                         one = all(len([e for e in fs.event_list() if e.kind == "call" and e.extra.get("name") == "read"]) == 1 and util.ret_term(fs) == [e for e in fs.event_list() if e.kind == "call" and e.extra.get("name") == "read"][0].res for fs in Ic.final_states)
                         if one and Ic.final_states:
                             okv = rng_ok = True
+    if not (okv and rng_ok):
+        # extend form: v = Vec::new()/with_capacity(..); v.extend((0..n).map(|_| self.read())); v   -- and a path for
+        # n == 0 that returns a fresh empty vector
+        n_ = ("param", 2, I.names.get(2))
+
+        def empty_vec(v):
+            return isinstance(v, tuple) and v and v[0] == "call" and str(v[1]).rsplit("::", 1)[-1] in ("new", "with_capacity") and "Vec" in str(v[1])
+
+        def one_read_map(mp):
+            if not (isinstance(mp, tuple) and mp and mp[0] == "call" and str(mp[1]).endswith("Iterator::map") and len(mp[2]) >= 2):
+                return False
+            rg, clo = mp[2][0], mp[2][1]
+            rg_ok_ = rg[0] == "agg" and isinstance(rg[1], tuple) and str(rg[1][1]).endswith("ops::Range") and rg[2] == (mk_int(0), n_)
+            cb = crate.by_key.get(clo[1][1]) if clo[0] == "agg" and isinstance(clo[1], tuple) and clo[1][0] == "closure" else None
+            if not rg_ok_ or cb is None:
+                return False
+            Ic = cx.analyse(cb)
+            return bool(Ic.final_states) and all(len([e for e in fs.event_list() if e.kind == "call" and e.extra.get("name") == "read"]) == 1 and util.ret_term(fs) == [e for e in fs.event_list() if e.kind == "call" and e.extra.get("name") == "read"][0].res for fs in Ic.final_states)
+
+        allp = bool(I.final_states) and not I.loops
+        some = False
+        for st in I.final_states:
+            ret = util.ret_term(st)
+            evs = [e for e in st.event_list() if e.kind == "call"]
+            if empty_vec(ret) and not [e for e in evs if e.extra.get("name") == "read"] and zones.entails(st.facts, "Eq", n_, mk_int(0), I.tys):
+                continue
+            ex = [e for e in evs if e.extra.get("name") == "extend"]
+            good = len(ex) == 1 and ret[0] == "out" and ret[1] == ex[0].extra.get("uid") and ex[0].args[0] == ("ref", ("local", ret[2])) and empty_vec((ex[0].extra.get("argvals") or [None])[0]) and one_read_map(ex[0].args[1]) and not [e for e in evs if e.extra.get("name") == "read"]
+            allp = allp and good
+            some = some or good
+        if allp and some:
+            okv = rng_ok = True
     if okv and rng_ok:
         col.ok("W7" + sfx, b.loc(), "%s|n-reads-in-order" % fk(b), "one read per element of 0..n, results collected in order")
     else:
